@@ -232,6 +232,7 @@ func c17Replacements(p *genrun.Pkg) map[string]string {
 		} else {
 			put(s.ID, "NONTERM")
 			put(s.Name, "NONTERM")
+			put("At"+s.ID, "AtNONTERM")
 		}
 	}
 	prefix := g.Options.NodePrefix
